@@ -10,6 +10,13 @@
 //     cases of the switch of gta (interp/gta.go) that decides which function declarations get a
 //     symbol in the package scope; fingerprints of those statements and of the loops that run the list.
 //
+//   - how the dependencies of a variable specification are found (depFacts): how getVarDependencies
+//     resolves an identifier (by name in the package scope, or by the symbol cfg attached to the
+//     node), whether it follows references to functions / to methods, whether a reference of a
+//     specification to itself is dropped; whether gta makes the variables of `var a, b = f()` global
+//     symbols carrying their node and comes back to the declaration until the callee is declared;
+//     whether ast takes `var a, b = x, y` apart at package level; fingerprints of those statements.
+//
 // A construct that is no longer recognised yields a token "unrecognised: …", which cannot equal
 // the hand-written expectation.
 package main
@@ -486,6 +493,186 @@ func gtaCases(fd *ast.FuncDecl) (cases string, hash string) {
 	return leanList(out), fmt.Sprintf("%x", sha256.Sum256([]byte(forHash.String())))[:16]
 }
 
+
+// stmts renders a statement list, statements separated by ";".
+func stmts(l []ast.Stmt) string {
+	out := make([]string, len(l))
+	for i, s := range l {
+		out[i] = render(s)
+	}
+	return strings.Join(out, ";")
+}
+
+func leanBool(b bool) string {
+	if b {
+		return "true"
+	}
+	return "false"
+}
+
+// depWalkFacts reads getVarDependencies (interp/cfg.go). Three shapes are known:
+//
+//	sym, _, ok := sc.lookup(n.ident) … if sym.kind != varSym || !sym.global || sym.node == nod { return false }
+//	    resolve .byName, nothing followed, skipSelf                       (before round 3)
+//	sym := n.sym; if sym == nil || sym.kind != varSym || !sym.global || sym.node == nod { return false }
+//	    resolve .lexical, nothing followed, skipSelf
+//	switch { case n.kind == selectorExpr && n.action == aGetMethod: fn, _ = n.val.(*node)
+//	         case n.kind != identExpr || n.sym == nil:
+//	         case n.sym.kind == funcSym: fn = n.sym.node
+//	         case n.sym.kind == varSym && n.sym.global [&& n.sym.node != nod]: deps = append(deps, n.sym.node) }
+//	if fn != nil && !seen[fn] { seen[fn] = true; fn.Walk(visit, nil) }
+//	    resolve .lexical; a case that is present is followed; skipSelf iff the last conjunct is there
+//
+// Anything else: resolve .other (the whole function is fingerprinted besides: source_tie).
+func depWalkFacts(fd *ast.FuncDecl) (resolve string, followFuncs, followMethods, skipSelf bool) {
+	if fd == nil || fd.Body == nil {
+		return other("function getVarDependencies not found"), false, false, false
+	}
+	body := render(fd.Body)
+	byName := strings.Contains(body, "sc.lookup(n.ident)")
+	var sw *ast.SwitchStmt
+	follow := false
+	ast.Inspect(fd.Body, func(m ast.Node) bool {
+		switch x := m.(type) {
+		case *ast.SwitchStmt:
+			if x.Tag == nil && x.Init == nil && sw == nil {
+				sw = x
+			}
+		case *ast.IfStmt:
+			if render(x.Cond) == "fn!=nil&&!seen[fn]" && x.Else == nil && stmts(x.Body.List) == "seen[fn]=true;fn.Walk(visit,nil)" {
+				follow = true
+			}
+		}
+		return true
+	})
+	if sw == nil {
+		cond := ""
+		ast.Inspect(fd.Body, func(m ast.Node) bool {
+			if x, ok := m.(*ast.IfStmt); ok && strings.Contains(render(x.Cond), "sym.kind!=varSym") {
+				cond = render(x.Cond)
+			}
+			return true
+		})
+		switch {
+		case byName && cond == "sym.kind!=varSym||!sym.global||sym.node==nod":
+			return ".byName", false, false, true
+		case !byName && strings.Contains(body, "sym:=n.sym") && cond == "sym==nil||sym.kind!=varSym||!sym.global||sym.node==nod":
+			return ".lexical", false, false, true
+		}
+		return other("getVarDependencies: test " + cond), false, false, false
+	}
+	if byName {
+		return other("getVarDependencies: switch and sc.lookup"), false, false, false
+	}
+	resolve = ".lexical"
+	guard, varCase := false, false
+	for _, s := range sw.Body.List {
+		c := s.(*ast.CaseClause)
+		cond := ""
+		if len(c.List) == 1 {
+			cond = render(c.List[0])
+		}
+		b := stmts(c.Body)
+		switch {
+		case cond == "n.kind==selectorExpr&&n.action==aGetMethod" && b == "fn,_=n.val.(*node)":
+			followMethods = follow
+		case cond == "n.kind!=identExpr||n.sym==nil" && b == "":
+			guard = true
+		case cond == "n.sym.kind==funcSym" && b == "fn=n.sym.node":
+			followFuncs = follow
+		case cond == "n.sym.kind==varSym&&n.sym.global" && b == "deps=append(deps,n.sym.node)":
+			varCase = true
+		case cond == "n.sym.kind==varSym&&n.sym.global&&n.sym.node!=nod" && b == "deps=append(deps,n.sym.node)":
+			varCase, skipSelf = true, true
+		default:
+			resolve = other("getVarDependencies: case " + cond + ": " + b)
+		}
+	}
+	if !guard || !varCase {
+		resolve = other("getVarDependencies: the guard or the variable case is missing")
+	}
+	return resolve, followFuncs, followMethods, skipSelf
+}
+
+// caseClause finds the first `case <name>:` (a single expression) in a function.
+func caseClause(fd *ast.FuncDecl, name string) *ast.CaseClause {
+	var out *ast.CaseClause
+	if fd == nil || fd.Body == nil {
+		return nil
+	}
+	ast.Inspect(fd.Body, func(m ast.Node) bool {
+		if c, ok := m.(*ast.CaseClause); ok && out == nil && len(c.List) == 1 && render(c.List[0]) == name {
+			out = c
+			return false
+		}
+		return true
+	})
+	return out
+}
+
+// gtaMultiFacts reads `case defineXStmt:` of gta:
+//
+//	multiGlobal  `sym.global, sym.node = true, n` in a loop over n.child[:n.nleft], after compDefineX
+//	multiRetry   `revisit = append(revisit, n)` followed by `return false`, before compDefineX, and
+//	             gtaRetry reports the error kept in n.meta for a defineXStmt
+func gtaMultiFacts(gta, retry *ast.FuncDecl) (global, again bool, clause ast.Node) {
+	c := caseClause(gta, "defineXStmt")
+	if c == nil {
+		return false, false, nil
+	}
+	compiled := false
+	ast.Inspect(c, func(m ast.Node) bool {
+		switch x := m.(type) {
+		case *ast.CallExpr:
+			if render(x.Fun) == "compDefineX" {
+				compiled = true
+			}
+		case *ast.RangeStmt:
+			if compiled && render(x.X) == "n.child[:n.nleft]" && strings.Contains(render(x.Body), "sym.global,sym.node=true,n") {
+				global = true
+			}
+		case *ast.BlockStmt:
+			if !compiled && strings.HasSuffix(stmts(x.List), "revisit=append(revisit,n);returnfalse") {
+				again = true
+			}
+		}
+		return true
+	})
+	if again {
+		// the retry pass must know the node kind
+		again = false
+		if retry != nil && retry.Body != nil {
+			ast.Inspect(retry.Body, func(m ast.Node) bool {
+				if cc, ok := m.(*ast.CaseClause); ok {
+					for _, e := range cc.List {
+						if render(e) == "defineXStmt" && strings.Contains(stmts(cc.Body), "n.meta.(error)") {
+							again = true
+						}
+					}
+				}
+				return true
+			})
+		}
+	}
+	return global, again, c
+}
+
+// astSplitFacts reads `case token.VAR:` of ast (interp/ast.go):
+// `kind = varDecl; if anc.node != nil && anc.node.kind == fileStmt { a.Specs = splitVarSpecs(a.Specs) }`.
+func astSplitFacts(fd *ast.FuncDecl) (split bool, clause ast.Node) {
+	c := caseClause(fd, "token.VAR")
+	if c == nil {
+		return false, nil
+	}
+	for _, s := range c.Body {
+		if x, ok := s.(*ast.IfStmt); ok && render(x.Cond) == "anc.node!=nil&&anc.node.kind==fileStmt" && x.Else == nil &&
+			stmts(x.Body.List) == "a.Specs=splitVarSpecs(a.Specs)" {
+			split = true
+		}
+	}
+	return split, c
+}
+
 func main() {
 	common.Main("C15", func(repo string) (string, error) {
 		_, fp, err := common.ParseFile(repo, "interp/program.go")
@@ -503,6 +690,23 @@ func main() {
 		fsetG, fg, err := common.ParseFile(repo, "interp/gta.go")
 		if err != nil {
 			return "", err
+		}
+		fsetA, fa, err := common.ParseFile(repo, "interp/ast.go")
+		if err != nil {
+			return "", err
+		}
+		resolve, fFuncs, fMeths, skipSelf := depWalkFacts(common.FindFunc(fc, "", "getVarDependencies"))
+		mGlobal, mRetry, gtaClause := gtaMultiFacts(common.FindFunc(fg, "Interpreter", "gta"), common.FindFunc(fg, "Interpreter", "gtaRetry"))
+		split, astClause := astSplitFacts(common.FindFunc(fa, "Interpreter", "ast"))
+		dh := [][2]string{
+			{"gta: case defineXStmt", nodeHash(gtaClause)},
+			{"gtaRetry", common.FuncHash(fsetG, fg, "Interpreter", "gtaRetry")},
+			{"ast: case token.VAR", nodeHash(astClause)},
+			{"splitVarSpecs", common.FuncHash(fsetA, fa, "", "splitVarSpecs")},
+		}
+		var dhs []string
+		for _, kv := range dh {
+			dhs = append(dhs, fmt.Sprintf("(%s, %s)", common.LeanStr(kv[0]), common.LeanStr(kv[1])))
 		}
 		h1 := common.HashTable(fsetC, fc, [][2]string{{"", "getVars"}, {"", "genGlobalVars"}, {"", "genGlobalVarDecl"}, {"", "getVarDependencies"}})
 		h2 := common.HashTable(fsetG, fg, [][2]string{{"", "equalNodes"}})
@@ -544,10 +748,28 @@ def initFacts : InitFacts :=
 /-- fingerprints of the statements initFacts was read from and of the loops that run the list -/
 def initHashes : List (String × String) :=
   [%s]
+/-- interp/cfg.go getVarDependencies: how an identifier is resolved, what is followed, whether a
+    reference to the specification itself is dropped; interp/gta.go gta (case defineXStmt): the
+    variables of var a, b = f() are global symbols with their node, the declaration is revisited
+    until its callee is declared; interp/ast.go ast (case token.VAR): var a, b = x, y is taken
+    apart at package level -/
+def depFacts : DepFacts :=
+  { resolve := %s,
+    followFuncs := %s,
+    followMethods := %s,
+    skipSelf := %s,
+    multiGlobal := %s,
+    multiRetry := %s,
+    splitPaired := %s }
+/-- fingerprints of the statements depFacts was read from (getVarDependencies is in sourceHashes) -/
+def depHashes : List (String × String) :=
+  [%s]
 end YaegiVerif.Generated.C15
 `, common.LeanStrList(tokens(common.FindFunc(fp, "Interpreter", "Execute"))),
 			common.LeanStrList(tokens(common.FindFunc(fp, "Interpreter", "CompileAST"))),
 			common.LeanStrList(tokens(common.FindFunc(fs, "Interpreter", "importSrc"))),
-			h1, h2, register, add, join, gcases, strings.Join(ihs, ",\n   ")), nil
+			h1, h2, register, add, join, gcases, strings.Join(ihs, ",\n   "),
+			resolve, leanBool(fFuncs), leanBool(fMeths), leanBool(skipSelf), leanBool(mGlobal), leanBool(mRetry), leanBool(split),
+			strings.Join(dhs, ",\n   ")), nil
 	})
 }
